@@ -156,8 +156,25 @@ fn repo_dir() -> PathBuf {
     if let Some(p) = std::env::var_os("REPE_REPO") {
         return PathBuf::from(p);
     }
+    // the tree this engine was built against: the `repe = { path = ".." }` of mc/Cargo.toml
+    // (scratch copies rewrite it; everywhere else it is /repo)
     let root = verif_root();
-    root.parent().map(|p| p.join("repo")).unwrap_or_else(|| PathBuf::from("/repo"))
+    if let Ok(toml) = std::fs::read_to_string(root.join("mc/Cargo.toml")) {
+        for line in toml.lines() {
+            if let Some(rest) = line.trim().strip_prefix("repe") {
+                if let Some(i) = rest.find("path = \"") {
+                    let tail = &rest[i + 8..];
+                    if let Some(j) = tail.find('"') {
+                        let p = PathBuf::from(&tail[..j]);
+                        if p.is_dir() {
+                            return p;
+                        }
+                    }
+                }
+            }
+        }
+    }
+    PathBuf::from("/repo")
 }
 
 /// The oracle must reproduce every Glaze-produced fixture from the manifest's
